@@ -61,6 +61,16 @@ def _metamodule_mapped():
     read_sunvox_file(BytesIO(p.read()))
     mm.user_defined_controllers = 2
     mm.user_defined_controllers = 0
+    # mappings are re-pointed and cleared again, and the value types re-derived each time
+    m2 = m.MetaModule()
+    m2.project.new_module(m.Amplifier)
+    m2.project.new_module(m.Lfo)
+    m2.user_defined_controllers = 3
+    for target in ((1, 1), (0, 0), (2, 2), (9, 9), (1, 8), (1, 99), (1, 2), (0, 0), (2, 0)):
+        for i in range(3):
+            m2.mappings.values[i] = m2.Mapping(target)
+        m2.update_user_defined_controllers()
+    m2.clone()
 
 
 def _nested_metamodule():
